@@ -628,9 +628,20 @@ class GBNFCompiler:
 
         # Build field rules
         field_rule_names: list[str] = []
+        # Rule names must be unique: two field names can sanitize alike ("A.B"/"A_DOT_B",
+        # "a"/"A"), and a field may be named like one of the structural rules emitted below
+        # ("WS", "CONTENT", ...). Disambiguate with a "-N" suffix (sanitized names never contain
+        # a hyphen, so the suffixed name cannot collide again) instead of defining a rule twice.
+        taken_rule_names = {"ws", "field", "content", "document", "root"}
 
         for field_name, field_def in schema.fields.items():
-            rule_name = self._sanitize_rule_name(field_name)
+            base_rule_name = self._sanitize_rule_name(field_name)
+            rule_name = base_rule_name
+            suffix = 2
+            while rule_name in taken_rule_names:
+                rule_name = f"{base_rule_name}-{suffix}"
+                suffix += 1
+            taken_rule_names.add(rule_name)
             field_rule_names.append(rule_name)
 
             # Get constraint pattern
